@@ -464,7 +464,10 @@ def A5_overlap_guard(repo, clause):
     # the false edge raises the dedicated exception and cannot reach a normal return
     raises = [n for n in fn.own_nodes() if isinstance(n, ast.Raise) and n.exc is not None
               and "AtomsShouldNotBeDeletedTwice" in ast.unparse(n.exc)]
-    floor("A5", "raise AtomsShouldNotBeDeletedTwice", len(raises), 1)
+    if not raises:
+        obs.append(Ob("A5", clause, fn, RL.loop, False,
+                      "the match loop never raises the dedicated overlap error: overlapping deletions are not refused",
+                      construct="raise AtomsShouldNotBeDeletedTwice()", slot="raise"))
     for r in raises:
         gs = norm_guards(fn, r, stop=RL.loop)
         neg = False
@@ -623,6 +626,10 @@ def A6_rotation_gate(repo, clause):
                 if pol and mentions_chk(t):
                     acc.append(c)
                     gate = t
+    if len(acc) == 0:
+        return [Ob("A6", clause, fn, fn.node, False,
+                   "no candidate acceptance is control-dependent on a comparison with the rotated+translated pattern copy `%s`: "
+                   "matches are reported without passing the rotation re-check" % chk, construct="if <re-check>: accepted.append(...)", slot="gated-append")]
     if len(acc) != 1:
         raise AnalysisError("A6: expected one append gated by the rotation re-check, found %d" % len(acc))
     G = acc[0].func.value.id
